@@ -330,7 +330,8 @@ Fixpoint mkdirs_fs (m : fsmap) (um : N) (ds : list (list N)) : option fsmap :=
   end.
 
 (* remove_file_and_empty_parent_folders after the unlink: the directory the file was in is removed when nothing is left in
-   it, then the one above, and so on; the first that is not empty stops the walk.  rmdir is refused (and the run stops with
+   it, then the one above, and so on; the first that is not empty stops the walk, and so does "." (never given to rmdir).
+   rmdir is refused (and the run stops with
    an exception) when the directory ABOVE the one looked at cannot be written -- even when the one looked at is not empty *)
 Fixpoint rmdirs_fs (fuel : nat) (m : fsmap) (p : list N) : option fsmap :=
   match fuel with
@@ -339,7 +340,8 @@ Fixpoint rmdirs_fs (fuel : nat) (m : fsmap) (p : list N) : option fsmap :=
       match parent p with
       | None => Some m
       | Some [] => Some m
-      | Some d => if parent_ok m d true then
+      | Some d => if str_eqb d [46%N] then Some m       (* "." is where the run stands: the walk stops there *)
+                  else if parent_ok m d true then
                     match lookup m d with
                     | Some (Dir _) => if has_children m d then Some m else rmdirs_fs f (remove_key m d) d
                     | _ => None
@@ -385,7 +387,8 @@ Proof.
   - inversion H; subst. exists w. repeat split; assumption.
   - destruct (parent p) as [[|c d]|].
     + inversion H; subst. exists w. repeat split; assumption.
-    + destruct (parent_ok (fs w) (c :: d) true) eqn:P; [|discriminate].
+    + destruct (str_eqb (c :: d) [46%N]); [inversion H; subst; exists w; repeat split; assumption|].
+      destruct (parent_ok (fs w) (c :: d) true) eqn:P; [|discriminate].
       destruct (lookup (fs w) (c :: d)) as [[x y|y|t|y]|] eqn:L; try discriminate.
       rewrite mbind_eq. destruct (has_children (fs w) (c :: d)) eqn:Hc.
       * inversion H; subst.
@@ -505,6 +508,7 @@ Lemma rmdirs_fs_children : forall fuel m p m' q, rmdirs_fs fuel m p = Some m' ->
 Proof.
   induction fuel as [|f IH]; intros m p m' q H Hc; cbn [rmdirs_fs] in H; [inversion H; subst; exact Hc|].
   destruct (parent p) as [[|c d]|]; try (inversion H; subst; exact Hc).
+  destruct (str_eqb (c :: d) [46%N]); [inversion H; subst; exact Hc|].
   destruct (parent_ok m (c :: d) true); [|discriminate].
   destruct (lookup m (c :: d)) as [[x y|y|t|y]|]; try discriminate.
   destruct (has_children m (c :: d)); [inversion H; subst; exact Hc|].
@@ -518,6 +522,7 @@ Lemma rmdirs_fs_lookup : forall fuel m p m' q, rmdirs_fs fuel m p = Some m' ->
 Proof.
   induction fuel as [|f IH]; intros m p m' q H; cbn [rmdirs_fs] in H; [inversion H; subst; left; reflexivity|].
   destruct (parent p) as [[|c d]|] eqn:Par; try (inversion H; subst; left; reflexivity).
+  destruct (str_eqb (c :: d) [46%N]); [inversion H; subst; left; reflexivity|].
   destruct (parent_ok m (c :: d) true); [|discriminate].
   destruct (lookup m (c :: d)) as [[x y|y|t|y]|] eqn:L; try discriminate.
   destruct (has_children m (c :: d)) eqn:Hc; [inversion H; subst; left; reflexivity|].
@@ -711,6 +716,7 @@ Lemma Tri_rmdir_parents (P : fsmap -> Prop) : forall fuel p,
 Proof.
   induction fuel as [|f IH]; intros p H; cbn [rmdir_parents]; [apply Tri_ret; auto|].
   destruct (parent p) as [[|c d]|]; try (apply Tri_ret; auto).
+  destruct (str_eqb (c :: d) [46%N]); [apply Tri_ret; auto|].
   apply (Tri_bind P _ _ (fun _ => P)).
   - apply Tri_perform; [intros m um m' Pm Ex; exact (H _ m um m' Pm Ex)|auto].
   - intros [e|]; [|apply IH; exact H]. destruct e; try (apply Tri_throw; auto); apply Tri_ret; auto.
@@ -1101,6 +1107,7 @@ Proof.
   { unfold parent_ok in *. rewrite <- Hp. exact Pk. }
   destruct src as [|c0 s0]; [congruence|]. cbn [length rmdirs_fs].
   destruct (parent (c0 :: s0)) as [[|c d]|] eqn:Par; try reflexivity.
+  destruct (str_eqb (c :: d) [46%N]); [reflexivity|].
   pose proof (parent_ancestor _ _ Par) as As.
   assert (Ad : is_ancestor (c :: d) dst) by (apply parent_ancestor; rewrite <- Hp; reflexivity).
   assert (Ld : exists md, lookup m (c :: d) = Some (Dir md)).
@@ -1556,4 +1563,97 @@ Proof. vm_compute. repeat split; reflexivity. Qed.
 Example rename_over_existing_run :
   let r := run_patch ex_p1 exc_text (mkWorld [(bs "old.txt", Reg exm_data 420); (bs "new.txt", Reg (bs "precious" ++ nlb) 384)] 18 [] None []) in
   rr_exit r = 0 /\ fs (rr_world r) = [(bs "new.txt", Reg exm_data 384)].
+Proof. vm_compute. repeat split; reflexivity. Qed.
+
+(* ================= names written with a leading "./" ================= *)
+(* "rename from ./OLD" / "rename to ./NEW" under -p1 name ./OLD and ./NEW (ext_name 1): the directory the old name leaves is
+   ".", where the run stands.  The walk that removes emptied directories stops there without giving it to rmdir (the program
+   used to call rmdir(".") after the unlink, got EINVAL and ended with status 2, the file already moved): whatever the tree
+   holds, the walk after the unlink of ./OLD changes nothing and is never refused *)
+Definition dot_name (a : list N) : list N := 46%N :: 47%N :: a.
+
+Lemma parent_dot a : ~ In 47%N a -> parent (dot_name a) = Some [46%N].
+Proof.
+  intros H. unfold parent, dot_name. cbn [parent_aux N.eqb Pos.eqb app]. apply no_slash_parent_aux. exact H.
+Qed.
+
+Lemma prefixes_dot a : ~ In 47%N a -> dir_prefixes (dot_name a) [] = [[46%N]].
+Proof.
+  intros H. unfold dot_name. cbn [dir_prefixes N.eqb Pos.eqb app is_nil]. rewrite (no_slash_prefixes a _ H). reflexivity.
+Qed.
+
+Lemma rmdirs_fs_dot m a : ~ In 47%N a -> rmdirs_fs (length (dot_name a)) m (dot_name a) = Some m.
+Proof. intros H. cbn [length dot_name rmdirs_fs]. fold (dot_name a). rewrite (parent_dot a H). reflexivity. Qed.
+
+Theorem rename_prog_dot a b out mode w data md :
+  fault w = None -> a <> b -> ~ In 47%N a -> ~ In 47%N b ->
+  lookup (fs w) (dot_name a) = Some (Reg data mode) -> owner_r mode = true -> lookup (fs w) (dot_name b) = None ->
+  lookup (fs w) [46%N] = Some (Dir md) -> owner_x md = true -> owner_w md = true ->
+  exists w',
+    rename_prog (dot_name a) (dot_name b) out mode w = (Ok (0, []), w') /\
+    fs w' = moved (fs w) (umask w) (dot_name a) (dot_name b) out mode /\
+    lookup (fs w') (dot_name b) = Some (Reg out mode) /\ lookup (fs w') (dot_name a) = None /\
+    (forall q, q <> dot_name a -> q <> dot_name b -> lookup (fs w') q = lookup (fs w) q) /\
+    fault w' = None /\ umask w' = umask w.
+Proof.
+  intros Fw Hab Ha Hb Lf Hr Lg Ld Hx Hw.
+  assert (Hne : dot_name a <> dot_name b) by (intros E; inversion E; contradiction).
+  assert (Pk : forall c, ~ In 47%N c -> parent_ok (fs w) (dot_name c) true = true).
+  { intros c Hc. unfold parent_ok. rewrite (parent_dot c Hc), Ld, Hx, Hw. reflexivity. }
+  destruct (rename_prog_runs (dot_name a) (dot_name b) out mode w data (fs w)
+              (moved (fs w) (umask w) (dot_name a) (dot_name b) out mode) Fw Hne ltac:(discriminate) Lf (Pk a Ha) Hr Lg)
+    as (w' & E & F1 & F2 & F3).
+  - rewrite (prefixes_dot b Hb). cbn [mkdirs_fs]. rewrite Ld. reflexivity.
+  - exact (Pk b Hb).
+  - apply rmdirs_fs_dot. exact Ha.
+  - exists w'. split; [exact E|]. split; [exact F1|]. rewrite F1.
+    split; [unfold moved; rewrite lookup_remove_other by exact Hne; apply lookup_upd_same|].
+    split; [unfold moved; apply lookup_remove_same|].
+    split; [intros q H1 H2; apply moved_lookup; assumption|]. split; assumption.
+Qed.
+Print Assumptions rename_prog_dot.
+
+(* the whole program: patch -p1 on "rename from ./old.txt" / "rename to ./new.txt": status 0, the file moved, and "." is not
+   given to rmdir at all (see the trace).  Bystander: old.txt, which is another entry of the tree than ./old.txt *)
+Definition exdot_text : list N :=
+  bs "diff --git a/./old.txt b/./new.txt" ++ nlb ++ bs "similarity index 100%" ++ nlb ++
+  bs "rename from ./old.txt" ++ nlb ++ bs "rename to ./new.txt" ++ nlb.
+Definition exdot_world : world := mkWorld [(bs ".", Dir 493); (bs "./old.txt", Reg exm_data 420); (bs "old.txt", Reg (bs "y" ++ nlb) 420)] 18 [] None [].
+
+Example rename_prog_dot_nonvacuous :
+  exists w',
+    process_patch ex_p1 exdot_text exdot_world = (Ok (0, []), w') /\
+    lookup (fs w') (bs "./new.txt") = Some (Reg exm_data 420) /\ lookup (fs w') (bs "./old.txt") = None /\
+    (forall q, q <> bs "./old.txt" -> q <> bs "./new.txt" -> lookup (fs w') q = lookup (fs exdot_world) q) /\
+    fault w' = None.
+Proof.
+  assert (E : exdot_text = join_lines ([] ++ rename_lines ((bs "a/" ++ bs "./old.txt") ++ bs " b/" ++ bs "./new.txt") (bs "100%")
+                                                          (bs "./old.txt") (bs "./new.txt") ++ [])) by (vm_compute; reflexivity).
+  rewrite E.
+  rewrite (pure_rename_program ex_p1 FUnknown [] [] _ (bs "100%") (bs "./old.txt") (bs "./new.txt")
+             (dot_name (bs "old.txt")) (dot_name (bs "new.txt")) exdot_world exm_data 420).
+  - destruct (rename_prog_dot (bs "old.txt") (bs "new.txt") (rewritten ex_p1 exm_data) 420 exdot_world exm_data 493)
+      as (w' & E1 & _ & L1 & L2 & L3 & F & _); try reflexivity; try (vm_compute; intuition discriminate).
+    exists w'. split; [exact E1|]. split; [exact L1|]. split; [exact L2|]. split; [exact L3|exact F].
+  - repeat split; try reflexivity. vm_compute. discriminate.
+  - reflexivity.
+  - constructor.
+  - constructor.
+  - constructor.
+  - apply (rename_text_plain 1 (bs "./old.txt") (bs "./new.txt") (bs "100%")).
+    + vm_compute. discriminate.
+    + vm_compute. discriminate.
+    + split; vm_compute; intuition discriminate.
+    + split; vm_compute; intuition discriminate.
+    + split; vm_compute; intuition discriminate.
+  - repeat split; try (vm_compute; reflexivity); vm_compute; discriminate.
+Qed.
+
+Example rename_dot_run :
+  let r := run_patch ex_p1 exdot_text exdot_world in
+  rr_exit r = 0 /\ rr_events r = [] /\
+  fs (rr_world r) = [(bs "./new.txt", Reg exm_data 420); (bs ".", Dir 493); (bs "old.txt", Reg (bs "y" ++ nlb) 420)] /\
+  trace (rr_world r) =
+    [OOpenRead (bs "./old.txt"); OMkdir (bs "."); OMkdir (bs "."); OWrite (bs "./new.txt") exm_data; OChmod (bs "./new.txt") 420;
+     OUnlink (bs "./old.txt")].
 Proof. vm_compute. repeat split; reflexivity. Qed.
